@@ -43,8 +43,10 @@ def escape_for(ctx, pm, rl):
                     pm and not rl:
                 return [T_exact('EndRun')]
         return None
+    from .c01 import optional_param
+    opt = optional_param(ctx)
     return Escape(ctx, CHAIN, src, branch=config_branch({'post_mortem': pm, 'resume_layer': rl}),
-                  spec={'runner.tear_down_unneeded': 'optional'})
+                  spec={'runner.tear_down_unneeded': opt} if opt else {})
 
 
 def r1_r2_escape(ctx, rep, R1='C04.R1', R2='C04.R2'):
@@ -73,7 +75,9 @@ def r1_r2_escape(ctx, rep, R1='C04.R1', R2='C04.R2'):
             # setup failures are recorded: the handler that swallows USER calls handle_layer_failure
             n += 1
             for opt in (False, True):
-                got = classes_of(e.tokens('runner.tear_down_unneeded', opt), hier)
+                got = classes_of(e.tokens('runner.tear_down_unneeded', opt)
+                                 if 'runner.tear_down_unneeded' in e.spec else
+                                 e.tokens('runner.tear_down_unneeded'), hier)
                 al = {'MemoryError'} | (set() if opt else {'CanNotTearDown'})
                 extra = got - al
                 fi = ctx.model.func('runner.tear_down_unneeded')
